@@ -1,40 +1,40 @@
 (* C10 — a relation tagged #[ds(ascent_byods_rels::eqrel)] behaves as its explicit equivalence closure.
 
    Model: Byods/EqRelModel.v (union_find.rs EqRel with path compression; eqrel_ind.rs old/combined pair, its
-   views and merge; ceqrel_ind.rs parallel wrapper; eqrel_ternary.rs per-key map + reverse map AS WRITTEN, driven
-   the way ascent_codegen.rs drives a provider).  Interface: Byods/Provider.v, laws P1-P5 over what the views
-   return, for a closure operator; closure: Byods/Closure.v.  Proofs: Byods/EqRelUF.v (union-find), EqRelProofs.v
-   (binary provider), EqRelPar.v (parallel wrapper), Ternary.v (generic per-key lifting), EqRelTernary.v.
+   views and merge; ceqrel_ind.rs parallel wrapper; eqrel_ternary.rs per-key map + reverse map, as repaired by
+   /repo commits bfc5173 0f251c7 539a1e3 187eab3 c6810ff, driven the way ascent_codegen.rs drives a provider).
+   Interface: Byods/Provider.v, laws P1-P5 over what the views return, for a closure operator; closure:
+   Byods/Closure.v.  Proofs: Byods/EqRelUF.v (union-find), EqRelProofs.v (binary provider), EqRelPar.v (parallel
+   wrapper), Ternary.v (generic per-key lifting), EqRelTernary.v (ternary provider), EqRelTernaryBeforeFix.v.
 
-   What is a theorem here and what is carried by the tie (gen/props/c10.py):
-   * PROVED, for every history of insertions / merges / stratum boundaries (no bound on length, element or class
-     count; every schedule of concurrent insertions is a history because one insertion is one atomic step):
-     the binary provider, serial and parallel, satisfies P1-P5 with cl = equivalence closure on mentioned
-     elements, every view ([0,1], [0], [1], none; index_get, iter_all, contains_key) being proved against the
-     closure; the parallel wrapper never panics; the per-key lifting of ANY provider that meets the laws meets
-     them with the per-key closure, provided the merge keeps every key's versions.
-   * REFUTED (computed witnesses, replayed on the real code by the tie): the ternary structure as written.
-   * `_partial`: the statement of the property itself is about PROGRAMS ("run() leaves exactly the least model of
-     the program plus the explicit reflexivity / symmetry / transitivity rules, and every rule reading the
-     relation derives what it would derive from that explicit relation").  That is the composition of the
-     provider laws with the engine theorem:
+   PROVED, for every history of insertions / merges / stratum boundaries (no bound on length, keys, elements or
+   classes; keys come, pause and resume in any order; every schedule of concurrent insertions is a history because
+   one insertion is one atomic step): the binary provider (serial and parallel) and the ternary provider satisfy
+   P1-P5 with cl = (per-key) equivalence closure on mentioned elements, every view — binary [0,1] [0] [1] none,
+   ternary [0,1,2] none [0] [0,1] [0,2] and, through the reverse map, [1] [2] [1,2]; index_get, iter_all,
+   contains_key — being proved against the closure; neither the parallel wrapper nor the reverse-map views panic.
+
+   The statement of the property itself is about PROGRAMS ("run() leaves exactly the least model of the program
+   plus the explicit reflexivity / symmetry / transitivity rules, and every rule reading the relation derives what
+   it would derive from that explicit relation").  That is the composition of the provider laws with the engine
+   theorem (Engine/Main.v):
 
        engine_with_providers :
          validate arities P pl = true -> every `ds` relation r of P is served by a provider meeting
          provider_ok with closure cl_r -> run_plan_ds fuel pl (init_state F0) = Some st ->
          least_model I (P ++ closure_rules P) F0 (rows st ++ what the providers' totals serve)
 
-     It needs (1) an engine model `run_plan_ds` (Engine/Eval.v extended) in which a clause over a ds relation reads
-     `p_get / p_all` of the provider state instead of an index of the shared multiset, the head update is
-     `p_contains total || p_contains delta || p_ins`, and the per-iteration / per-stratum protocol is PMerge /
-     PRestart; (2) Engine/EvalSpec.v's eval_variant_spec for such clauses, from P4 (a Delta position may be
-     over-approximated inside total + delta: sound because total + delta is inside every closed superset, harmless
-     for completeness), P5; (3) Engine/SemiNaive.v's stratum invariant with "closed" extended by the closure rules:
-     Provider.merge_total is (SN) for the closure rules, Provider.served_closed is their closedness at every loop
-     head, Provider.quiescent_exit / first_insert_succeeds give "changed = false => the stored total is closed",
-     Provider.restart_serves hands the relation to the next stratum.  The provider-side lemmas are proved below
-     (the c10_engine_facing theorems); the engine-side extension is not done: the program-level statement is carried by the
-     PROG half of the tie (tagged program vs explicit program against the specification oracle). *)
+   It needs (1) an engine model `run_plan_ds` (Engine/Eval.v extended) in which a clause over a ds relation reads
+   `p_get / p_all` of the provider state instead of an index of the shared multiset, the head update is
+   `p_contains total || p_contains delta || p_ins`, and the per-iteration / per-stratum protocol is PMerge /
+   PRestart; (2) Engine/EvalSpec.v's eval_variant_spec for such clauses, from P4 (a Delta position may be
+   over-approximated inside total + delta: sound because total + delta is inside every closed superset, harmless
+   for completeness) and P5; (3) Engine/SemiNaive.v's stratum invariant with "closed" extended by the closure
+   rules: Provider.merge_total is (SN) for the closure rules, Provider.served_closed their closedness at every loop
+   head, Provider.quiescent_exit / first_insert_succeeds give "changed = false => the stored total is closed",
+   Provider.restart_serves hands the relation to the next stratum.  The provider side is proved below (the
+   c10_engine_facing theorems); the engine-side extension is not done: the composition is carried by the PROG half
+   of the tie (tagged program vs explicit program against the specification oracle, gen/props/c10.py). *)
 From Coq Require Import List ZArith Bool.
 From AV Require Import Byods.EqRelModel.
 From AV Require Import Byods.EqRelUF.
@@ -44,6 +44,7 @@ From AV Require Import Byods.EqRelProofs.
 From AV Require Import Byods.EqRelPar.
 From AV Require Import Byods.Ternary.
 From AV Require Import Byods.EqRelTernary.
+From AV Require Import Byods.EqRelTernaryBeforeFix.
 Import ListNotations.
 Open Scope Z_scope.
 
@@ -62,11 +63,11 @@ Theorem c10_union_find_add : forall e x y, wf e ->
 Proof. exact e_add_spec. Qed.
 
 (* binary form, serial: P1-P5 for every history *)
-Theorem c10_eqrel_binary_provider_ok_partial : provider_ok T2 eqrel_binary eqv.
+Theorem c10_eqrel_binary_provider_ok : provider_ok T2 eqrel_binary eqv.
 Proof. exact eqrel_binary_provider_ok. Qed.
 
 (* binary form, parallel: the same laws (insertions are atomic steps), and no panic on the protocol *)
-Theorem c10_eqrel_par_provider_ok_partial : provider_ok T2 eqrel_par eqv.
+Theorem c10_eqrel_par_provider_ok : provider_ok T2 eqrel_par eqv.
 Proof. exact eqrel_par_provider_ok. Qed.
 Theorem c10_eqrel_par_never_panics : forall h,
   (forall x y, exists r, p_insert (run T2 eqrel_par h) x y = Ok r)
@@ -101,25 +102,32 @@ Proof. intros T B cl Hc H. split; [exact (lift_provider_ok T B cl Hc H)|exact (c
 Theorem c10_eqrel_ternary_lifted_ok : provider_ok T3z eqrel_ternary_lifted eqv3.
 Proof. exact eqrel_ternary_lifted_ok. Qed.
 
-(* the ternary structure as written does not meet the laws: neither its merge alone (F1: the merged delta of a
-   key is dropped) nor as driven by generated code (the full-index write view merges a second time), and
-   iter_all of the view on columns [1,2] is unsound *)
-Theorem c10_ternary_refuted :
-  ~ provider_ok T3z (eqrel_ternary_real false) eqv3 /\ ~ provider_ok T3z (eqrel_ternary_real true) eqv3.
-Proof. split; [exact ternary_merge_refuted|exact ternary_protocol_refuted]. Qed.
-Theorem c10_ternary_refuted_witness_f1 :
-  In (0, (1, 2)) (eqv3 (g_td T3z (ghost_of T3z h_f1)))
-  /\ ~ In (0, (1, 2)) (served T3z (eqrel_ternary_real false) (run T3z (eqrel_ternary_real false) h_f1))
-  /\ ~ In (0, (1, 2)) (p_read T3z (eqrel_ternary_real false) (run T3z (eqrel_ternary_real false) (h_f1 ++ [PMerge])) VTotal).
-Proof. split; [exact f1_in_closure|split; [exact f1_not_served|exact f1_lost]]. Qed.
-Theorem c10_ternary_refuted_witness_protocol :
-  In (0, (0, 1)) (eqv3 (g_td T3z (ghost_of T3z h_twice2)))
-  /\ ~ In (0, (0, 1)) (served T3z (eqrel_ternary_real true) (run T3z (eqrel_ternary_real true) h_twice2)).
-Proof. exact twice_loses. Qed.
-Theorem c10_ternary_refuted_ind12 : forall b,
-  exists l, In (TV12 0 1, l) (p_all T3z (eqrel_ternary_real b) (run T3z (eqrel_ternary_real b) h_i12) VTotal TI12) /\ In (1, (0, 1)) l
-            /\ ~ In (1, (0, 1)) (served T3z (eqrel_ternary_real b) (run T3z (eqrel_ternary_real b) h_i12)).
-Proof. intros b. destruct (i12_entry b) as [l [H1 H2]]. exists l. split; [exact H1|split; [exact H2|exact (i12_not_served b)]]. Qed.
+(* ternary form (EqRel2IndCommon with reverse map, as repaired): P1-P5 with the per-key equivalence closure for
+   every history; every keyed and key-free view incl. [2] and the filtered iter_all of [1,2]; the reverse-map
+   views of delta and of total never hit Option::unwrap on None *)
+Theorem c10_eqrel_ternary_provider_ok : provider_ok T3z eqrel_ternary eqv3.
+Proof. exact eqrel_ternary_provider_ok. Qed.
+Theorem c10_eqrel_ternary_closure : closure_op T3z eqv3 /\ forall k t l, In (k, t) (eqv3 l) <-> In t (eqv (proj T2 k l)).
+Proof. split; [exact eqv3_closure_op|intros k t l; exact (cl3_in T2 eqv eqv_closure_op k t l)]. Qed.
+Theorem c10_eqrel_ternary_never_panics : forall h v,
+  (forall x, exists l, tv_ind1_get (tver (run T3z eqrel_ternary h) v) x = None \/ tv_ind1_get (tver (run T3z eqrel_ternary h) v) x = Some (Ok l))
+  /\ (exists l, tv_ind1_all (tver (run T3z eqrel_ternary h) v) = Ok l)
+  /\ (forall x y, exists l, tv_ind12_get (tver (run T3z eqrel_ternary h) v) x y = None \/ tv_ind12_get (tver (run T3z eqrel_ternary h) v) x y = Some (Ok l)).
+Proof. exact eqrel_ternary_never_panics. Qed.
+(* the real structure is, key by key and step for step, the binary provider on the key's part of the history *)
+Theorem c10_eqrel_ternary_is_per_key_binary : forall h k,
+  mkB (get_or_default k (t_map (ts_new (run T3z eqrel_ternary h)))) (get_or_default k (t_map (ts_delta (run T3z eqrel_ternary h))))
+      (get_or_default k (t_map (ts_total (run T3z eqrel_ternary h)))) = run T2 eqrel_binary (hproj T2 k h).
+Proof. intros h k. exact (ti_sim h _ (tinv_run h) k). Qed.
+
+(* BEFORE the repairs the ternary structure did not meet the laws (old definitions of the model; record only) *)
+Theorem c10_ternary_refuted_before_fix :
+  ~ provider_ok T3z (eqrel_ternary_before_fix false) eqv3 /\ ~ provider_ok T3z (eqrel_ternary_before_fix true) eqv3.
+Proof. split; [exact ternary_merge_refuted_before_fix|exact ternary_protocol_refuted_before_fix]. Qed.
+Theorem c10_ternary_ind12_refuted_before_fix : forall b,
+  exists l, In (TV12 0 1, l) (p_all T3z (eqrel_ternary_before_fix b) (run T3z (eqrel_ternary_before_fix b) h_i12) VTotal TI12) /\ In (1, (0, 1)) l
+            /\ ~ In (1, (0, 1)) (served T3z (eqrel_ternary_before_fix b) (run T3z (eqrel_ternary_before_fix b) h_i12)).
+Proof. exact ternary_i12_refuted_before_fix. Qed.
 
 (* non-vacuity: a history with facts for one class over two rounds, a stratum boundary, and the readings *)
 Example c10_example_binary :
@@ -130,17 +138,24 @@ Example c10_example_binary :
   /\ bget (run T2 eqrel_binary h) VDelta (VI0 0) = Some [(0, 2)]
   /\ p_read T2 eqrel_binary (run T2 eqrel_binary (h ++ [PMerge; PRestart])) VTotal = [].
 Proof. vm_compute. repeat split. Qed.
-Example c10_example_lifted_keeps_what_real_loses :
-  In (0, (1, 2)) (served T3z eqrel_ternary_lifted (run T3z eqrel_ternary_lifted h_f1)).
-Proof. exact lifted_keeps_f1. Qed.
+Example c10_example_ternary :
+  let h := [PIns (0, (0, 1)); PIns (1, (5, 5)); PMerge; PIns (0, (1, 2)); PMerge] : list (pop T3z) in
+  length (p_read T3z eqrel_ternary (run T3z eqrel_ternary h) VTotal) = 5%nat
+  /\ length (p_read T3z eqrel_ternary (run T3z eqrel_ternary h) VDelta) = 5%nat
+  /\ length (eqv3 (g_td T3z (ghost_of T3z h))) = 10%nat
+  /\ tget (run T3z eqrel_ternary h) VDelta (TV2 2) = Some [(0, (0, 2)); (0, (1, 2)); (0, (2, 2))]
+  /\ tget (run T3z eqrel_ternary h) VDelta (TV12 0 2) = Some [(0, (0, 2))]
+  /\ tget (run T3z eqrel_ternary h) VTotal (TV1 5) = Some [(1, (5, 5))].
+Proof. vm_compute. repeat split. Qed.
 
 Print Assumptions c10_closure_is_explicit_rules. Print Assumptions c10_closure_operator.
 Print Assumptions c10_union_find_add.
-Print Assumptions c10_eqrel_binary_provider_ok_partial. Print Assumptions c10_eqrel_par_provider_ok_partial.
+Print Assumptions c10_eqrel_binary_provider_ok. Print Assumptions c10_eqrel_par_provider_ok.
 Print Assumptions c10_eqrel_par_never_panics.
 Print Assumptions c10_engine_facing_merge. Print Assumptions c10_engine_facing_closed. Print Assumptions c10_engine_facing_exit.
 Print Assumptions c10_engine_facing_first_insert. Print Assumptions c10_engine_facing_restart.
 Print Assumptions c10_ternary_lifting. Print Assumptions c10_eqrel_ternary_lifted_ok.
-Print Assumptions c10_ternary_refuted. Print Assumptions c10_ternary_refuted_witness_f1.
-Print Assumptions c10_ternary_refuted_witness_protocol. Print Assumptions c10_ternary_refuted_ind12.
-Print Assumptions c10_example_binary. Print Assumptions c10_example_lifted_keeps_what_real_loses.
+Print Assumptions c10_eqrel_ternary_provider_ok. Print Assumptions c10_eqrel_ternary_closure.
+Print Assumptions c10_eqrel_ternary_never_panics. Print Assumptions c10_eqrel_ternary_is_per_key_binary.
+Print Assumptions c10_ternary_refuted_before_fix. Print Assumptions c10_ternary_ind12_refuted_before_fix.
+Print Assumptions c10_example_binary. Print Assumptions c10_example_ternary.
